@@ -14,6 +14,7 @@
 //  modelinc     Model after addCov/delCova/... sequences == a freshly built Model.
 #include "verif.hpp"
 #include "geo_common.hpp"
+#include "krig_common.hpp"
 
 #include "Db/Db.hpp"
 #include "Db/DbGrid.hpp"
@@ -2623,5 +2624,102 @@ static void runCopy(const CopyCase& c, Ctx& ctx)
                c.destroyFirst ? "copy" : "source", st));
 }
 VERIF_SUB(copies, CopyCase, genCopy, runCopy);
+
+
+// =================================================================== target_order =======
+// Within one kriging() call the targets are processed in sequence with a neighbourhood memo and a reusable
+// inverse: the result at a target must not depend on which targets were processed before it (including
+// targets whose system cannot be established).  Oracle: the same targets in a generated other order.
+struct TOrderCase
+{
+  vfkrig::KCase k;
+  std::vector<int> perm;
+  template<class A> void io(A& a) { a("k", k)("perm", perm); }
+};
+static TOrderCase genTOrder()
+{
+  TOrderCase c;
+  vfkrig::GenOpt o;
+  o.family = G::pick<int>({1, 2, 2});
+  o.nvarMax = 2;
+  o.movingPct = 100;
+  o.blockMode = 0;
+  o.verrPct = 10;
+  o.intrinsicPct = 0;
+  o.nMax = 14;
+  o.farPct = 35;
+  o.sectorPct = 15;
+  o.onDataPct = 5;
+  o.naFdataPct = 0;
+  c.k = vfkrig::genCase(o);
+  // consecutive targets sharing their neighbourhood: near-duplicates of some targets (1e-3 L apart)
+  vfgeo::Points t2;
+  t2.ndim = c.k.targ.ndim;
+  for (int i = 0; i < c.k.targ.n(); i++)
+  {
+    t2.push(c.k.targ.p(i));
+    if (G::pct(60))
+    {
+      std::vector<double> x(c.k.targ.p(i), c.k.targ.p(i) + t2.ndim);
+      x[0] += 1e-3 * c.k.L;
+      t2.push(x.data());
+    }
+  }
+  c.k.targ = t2;
+  // small neighbourhoods so that some universal-kriging systems cannot be established
+  if (G::pct(60)) { c.k.nmaxi = G::i(1, 4); c.k.nmini = 1; }
+  c.perm = G::perm(c.k.targ.n());
+  return c;
+}
+static void runTOrder(const TOrderCase& c, Ctx& ctx)
+{
+  const vfkrig::KCase& k = c.k;
+  if (k.nfex > 0 || k.block) { ctx.label("skipped"); return; }
+  int nt = k.targ.n();
+  if ((int)c.perm.size() != nt) { ctx.label("skipped"); return; }
+  vfkrig::resetGlobals(k.ndim);
+  vfkrig::World w1;
+  if (!vfkrig::buildWorld(k, w1, ctx)) { ctx.label("world-not-built"); return; }
+  vfkrig::KOut o1 = vfkrig::runKriging(k, w1, ctx, false);
+  vfkrig::KCase k2 = k;
+  k2.targ.c.clear();
+  for (int j = 0; j < nt; j++) k2.targ.push(k.targ.p(c.perm[(size_t)j]));
+  vfkrig::World w2;
+  if (!vfkrig::buildWorld(k2, w2, ctx)) { ctx.label("world-not-built"); return; }
+  vfkrig::KOut o2 = vfkrig::runKriging(k2, w2, ctx, false);
+  std::string var = k.variant();
+  if (o1.err != o2.err) { ctx.fail("target-order:status:" + var, fmt("kriging returns %d, %d for the permuted targets", o1.err, o2.err)); return; }
+  if (o1.err || !o1.cols || !o2.cols) { ctx.label("kriging-refused"); return; }
+  bool moved = false, anyNA = false;
+  for (int j = 0; j < nt; j++)
+  {
+    int t = c.perm[(size_t)j];
+    if (t != j) moved = true;
+    for (int v = 0; v < k.nvar; v++)
+    {
+      double e1 = o1.estim[(size_t)(t * k.nvar + v)], e2 = o2.estim[(size_t)(j * k.nvar + v)];
+      double s1 = o1.stdev[(size_t)(t * k.nvar + v)], s2 = o2.stdev[(size_t)(j * k.nvar + v)];
+      bool n1 = vfkrig::isNA(e1), n2 = vfkrig::isNA(e2);
+      anyNA = anyNA || n1;
+      if (n1 != n2)
+      {
+        ctx.fail("target-order:defined:" + var, fmt("target %d var %d: estimate %s in the original order, %s at position %d of the permuted order (%.12g / %.12g)", t, v,
+                                                     n1 ? "undefined" : "defined", n2 ? "undefined" : "defined", j, e1, e2));
+        return;
+      }
+      if (n1) continue;
+      double sc = std::max({std::fabs(e1), std::fabs(e2), std::fabs(s1), std::fabs(s2), 1e-300});
+      if (!(std::fabs(e1 - e2) <= 1e-7 * sc) || !(std::fabs(s1 - s2) <= 1e-7 * sc))
+      {
+        ctx.fail("target-order:value:" + var, fmt("target %d var %d: estim %.12g / %.12g, stdev %.12g / %.12g (original order / position %d of the permuted order)", t, v, e1, e2, s1, s2, j));
+        return;
+      }
+    }
+  }
+  ctx.label(anyNA ? "has-failing-target" : "all-targets-estimated");
+  ctx.nontrivial(moved && nt >= 2);
+  ctx.sig = Hash().add(vfkrig::signature(k)).add(nt).add(anyNA ? 1 : 0).h;
+}
+VERIF_SUB(target_order, TOrderCase, genTOrder, runTOrder);
 
 VERIF_MAIN()
